@@ -416,6 +416,9 @@ class ViewsHooks(Hooks):
             elif out.ok:
                 r = out.value
                 it.probe('check:meta')
+                if r is w or it.dig(w) != dw or it.dig(p) != dp:
+                    it.violate('C07.meta', {'what': 'operand-changed-or-returned', 'plane': type(p).__name__},
+                               'the product %s the wavefront it was given' % ('is' if r is w else 'changed an operand of'), i)
                 if r.wavelength != w.wavelength:
                     it.violate('C07.meta', {'what': 'wavelength'}, 'wavelength %r -> %r' % (w.wavelength, r.wavelength), i)
                 want_f = p.focal_length if isinstance(p, L.Pupil) else w.focal_length
@@ -596,7 +599,7 @@ class ViewsScenario(OpticsBase):
                 w = w2
             if rng.random() < 0.25:
                 # a plane whose pixel scale disagrees with the wavefront's: must be refused, operands untouched (F5)
-                bad = b.E('Pupil', None, {'amplitude': 1.0, 'pixelscale': ph['dx'] * rng.choice([0.5, 1.25]), 'focal_length': ph['f']}, tag='p')
+                bad = b.E('Pupil', None, {'amplitude': 1.0, 'pixelscale': ph['dx'] * rng.choice([0.5, 1.25, 1 + 3e-6, 1 - 2e-3]), 'focal_length': ph['f']}, tag='p')
                 b.E('Plane.multiply', ['@' + bad, '@' + w], t={'expect': 'refuse'}, tag='x')
         # ---- propagation, image plane, propagation back
         if rng.random() < 0.8 or force.get('propagate'):
@@ -616,6 +619,13 @@ class ViewsScenario(OpticsBase):
                 k['mask'] = '@' + om
             wi = b.E('propagate_dft', ['@' + w], k, tag='w', t={'expect': 'ok'})
             views(wi)
+            if rng.random() < 0.3 or force.get('default'):
+                # image-side plane whose (micron-scale) pixel size is off by a fraction of a percent: still a conflict
+                du_s = (du if isinstance(du, float) else du[0]) / os_
+                du_c = du_s if isinstance(du, float) else du[1] / os_
+                f_ = rng.choice([1 + 2e-3, 1 - 1.5e-3, 1.25])
+                badi = b.E('Image', None, {'pixelscale': [du_s * f_, du_c * f_]}, tag='p')
+                b.E('Plane.multiply', ['@' + badi, '@' + wi], t={'expect': 'refuse'}, tag='x')
             if rng.random() < 0.5:
                 if rng.random() < 0.5:
                     ia = b.A({'kind': 'uniform', 'shape': [rng.randint(2, n[0] * os_ + 2), rng.randint(2, n[1] * os_ + 2)], 'lo': 0.2, 'hi': 1.0, 'seed': b.sd()})
@@ -773,7 +783,8 @@ class TiltScenario(OpticsBase):
                    'segments have >= 3 non-collinear pixels so the least-squares tilt is unique']
     must_hit = ['subpixel_only', 'beyond_output', 'nonsquare_pixel', 'per_segment_tilt', 'three_elements', 'carrier:tilt-planes',
                 'carrier:wavefront-tilt', 'carrier:fit', 'carrier:refit', 'carrier:dispersive', 'carrier:wavefront-tilt+fit',
-                'carrier:tilt-planes-before-pupil', 'carrier:fan-out', 'trace_order:1/1']
+                'carrier:tilt-planes-before-pupil', 'carrier:fan-out', 'carrier:same-wavefront-resampled', 'carrier:same-tilt-twice',
+                'trace_order:1/1']
     probe_names = must_hit + ['coldwarm_audit', 'no_common_samples', 'trace_order:2/1', 'trace_order:1/2']
 
     def program(self, rng, world, force=None):
@@ -863,6 +874,26 @@ class TiltScenario(OpticsBase):
             order2 = order[::-1]
             wpre2, ib2 = image(pb, extra=[tids[j] for j in order2])
             b.E('check.equiv', ['@' + ib2, '@' + ib, '@' + wpre2, '@' + wpre], t=dict(base_t, carrier='tilt-planes-reordered', permuted=True), tag='c')
+        # ---- history: the SAME pre-propagation wavefront object imaged a second time onto a differently sampled plane
+        if rng.random() < 0.5 or force:
+            du2 = [ph['du0'] * rng.choice([0.8, 1.25]), ph['du0'] * rng.choice([1.0, 1.6, 0.625])]
+            pk2 = dict(pk, pixelscale=du2)
+            ib_2 = b.E('propagate_dft', ['@' + wpre], pk2, t={'expect': 'ok'}, tag='w')
+            ie_2 = b.E('propagate_dft', ['@' + we_pre], pk2, t={'expect': 'ok'}, tag='w')
+            b.E('check.equiv', ['@' + ib_2, '@' + ie_2, '@' + wpre, '@' + we_pre],
+                t=dict(base_t, carrier='same-wavefront-resampled', square=False, flags=flags + ['nonsquare_pixel']), tag='c')
+            b.E('check.shift', ['@' + wpre, [['tilt', t[0], t[1]] for t in parts], z, du2, os_],
+                t={'n_elements': nel, 'square': False, 'kinds': 'tilt'}, tag='c')
+        # ---- F6: the same Tilt OBJECT met twice in one chain displaces twice
+        if rng.random() < 0.4 or force:
+            rdup = b.E('h.segment_ramp', ['@' + gm, [[parts[0][0], parts[0][1]]], dx], tag='rj')
+            odup = b.E('np.add', ['@' + o_all, '@' + rdup], tag='o')
+            pdup = b.E('Pupil', None, dict(pkw, opd='@' + odup, mask='@' + gm), tag='p')
+            wed, ied = image(pdup)
+            wpd, ibd = image(pb, extra=[tids[j] for j in order] + [tids[0]])
+            b.E('check.equiv', ['@' + ibd, '@' + ied, '@' + wpd, '@' + wed], t=dict(base_t, carrier='same-tilt-twice'), tag='c')
+            b.E('check.shift', ['@' + wpd, [['tilt', t[0], t[1]] for t in parts] + [['tilt', parts[0][0], parts[0][1]]], z, du, os_],
+                t={'n_elements': nel + 1, 'square': square, 'kinds': 'tilt'}, tag='c')
         # ---- carrier: the wavefront's own tilt
         if rng.random() < 0.7 or force:
             wt = b.E('Wavefront', [ph['wl']], {'tilt': [gx, gy]}, tag='w')
